@@ -22,7 +22,7 @@ Ops(st) ==
     \cup { [op |-> "adjust", chk |-> x] : x \in BOOLEAN }
     \cup { [op |-> "update", v |-> Pattern(st.bins, p)] : p \in 0..6 }
     \cup { [op |-> "backup"] }
-    \cup (IF st.backed THEN { [op |-> "revert"] } ELSE {})
+    \cup { [op |-> "revert"] }
     \cup { [op |-> "load", data |-> << RZero, RI(1), R(3, 2), RI(4), RI(4), RI(6), RI(9), RI(100) >>] }
     \cup { [op |-> "loadfn", c |-> RI(2)] }
 
